@@ -221,6 +221,37 @@ def module_new_selectors():
             seen.append(n)
     return sels, seen
 
+def state_dependent_errors():
+    """error.rs, UnwinderError::depends_on_registers_or_stack: the arms that answer `true`, as
+    (guarding feature of the arm or None, "Enum::Variant") in source order. A `#[cfg]` attribute in front of an arm
+    guards the WHOLE arm, every alternative of its or-pattern included."""
+    s = strip_comments(read("src/error.rs"))
+    body = fn_body(s, r"fn\s+depends_on_registers_or_stack\s*\(\s*&self\s*\)\s*->\s*bool")
+    if body is None:
+        fallbacks.append("STATE_DEPENDENT_ERRORS")
+        return None
+    m = re.search(r"match\s+self\s*\{(.*)\}", body, re.S)
+    if not m:
+        fallbacks.append("STATE_DEPENDENT_ERRORS")
+        return None
+    arms = re.split(r"=>\s*(true|false)\s*,", m.group(1))
+    out = []
+    for i in range(0, len(arms) - 1, 2):
+        pat, val = arms[i], arms[i + 1]
+        if val != "true":
+            continue
+        g = re.search(r'#\[cfg\(feature\s*=\s*"(\w+)"\)\]', pat)
+        guard = g.group(1) if g else None
+        # Self::Enum( A::V1 | A::V2(_) | ... ) possibly several groups joined by |
+        for em in re.finditer(r"Self::(\w+)\s*\(((?:[^()]|\([^()]*\))*)\)", pat):
+            enum = em.group(1)
+            for v in re.findall(r"::(\w+)", em.group(2)):
+                out.append((guard, "%s::%s" % (enum, v)))
+    if not out:
+        fallbacks.append("STATE_DEPENDENT_ERRORS")
+        return None
+    return out
+
 def write_if_changed(path, text):
     os.makedirs(os.path.dirname(path), exist_ok=True)
     old = None
@@ -244,6 +275,14 @@ def feat_consts():
     out.append("Definition SRC_NEW_SELECTORS : list (option feature * string * bool) := [" +
                "; ".join('(%s, "%s", %s)' % (f(a), b, "true" if c else "false") for a, b, c in sels) + "].")
     out.append("Definition SRC_NEW_UNGUARDED_NAMES : list string := [" + "; ".join('"%s"' % n for n in names) + "].")
+    sde = state_dependent_errors()
+    out.append("(* error.rs depends_on_registers_or_stack: the errors that are NOT cached as the fallback rule, with the feature that")
+    out.append("   guards their match arm (None when the source cannot be read that way) *)")
+    if sde is None:
+        out.append("Definition SRC_STATE_DEPENDENT_ERRORS : option (list (option feature * string)) := None.")
+    else:
+        out.append("Definition SRC_STATE_DEPENDENT_ERRORS : option (list (option feature * string)) := Some [" +
+                   "; ".join('(%s, "%s")' % (f(g), n) for g, n in sde) + "].")
     write_if_changed(os.path.join(os.path.dirname(OUT), "FeatConsts.v"), "\n".join(out) + "\n")
     return sels, names
 
